@@ -100,6 +100,20 @@ def run(ctx):
             ctx.violation("crash_%s_%s" % (inp["kind"], "".join(ch if ch.isalnum() else "_" for ch in inp["name"])[:40]), {
                 "kind": "transaction-input-stops-the-node", "tx_kind": inp["kind"], "input": inp["name"], "class": inp["class"], "stage": stage,
                 "worker_exit_status": rc, "txs": [inp["tx"]], "world": inp.get("world", ""), "mode": "both", "how": "./check replay <this file>"})
+    # whole histories: every directed scenario and a few random ones, each in its own worker
+    rc, out = sh([vh, "scenario", "-list"], timeout=60)
+    names = [x for x in out.split() if x.isidentifier()] if rc == 0 else []
+    if len(names) < 5:
+        raise Broken("the harness no longer lists its directed scenarios", out[-500:])
+    hists = names + ["random:%d" % (ctx.seed * 1000 + k) for k in range(3 if ctx.tier != "thorough" else 12)]
+    with c18run.cf.ThreadPoolExecutor(max_workers=8) as ex:
+        hres = list(ex.map(lambda nm: (nm, c18run.run_history(vh, nm)), hists))
+    hbad = [(nm, r) for nm, r in hres if r is not None]
+    for nm, (blk, what) in hbad[:3]:
+        n += 1
+        ctx.violation("history_%s_block_%d" % (nm.replace(":", "_"), blk), {
+            "kind": "history-stops-the-node", "history": nm, "block": blk, "what": what,
+            "how": "build/vh c18 -history %s   (the node stops serving at this block: a block hook panics, exits or hangs)" % nm})
     kinds = sorted({byid[i]["kind"] for i in ids})
     ctx.coverage.update({
         "evaluations": len(ids), "distinct_nontrivial": len({byid[i]["tx"] for i in ids}),
@@ -108,6 +122,7 @@ def run(ctx):
                 "multi-byte; booleans; field absent), whole-payload cases, envelope cases (fee gas/price/currency, type, memo, signature list/key/algorithm/bytes), all correctly signed where "
                 "the signer set allows; embedded Ethereum transactions (see assumptions); 116 malformed byte strings; corpus of earlier crash findings; each input goes through CheckTx and then a block (DeliverTx, EndBlock, Commit) in a worker "
                 "process, followed by a probe transaction; distinct = distinct byte strings" % len([k for k in kinds if k not in ("-", "corpus")]),
+        "histories_run": hists, "histories_stopped": [nm for nm, _ in hbad],
         "input_class_histogram": hist, "survived": len(results), "crashes": len(crashes), "corpus_inputs": len(cor),
         "accepted_by_checktx": acc["check_accepted"], "executed_by_delivertx": acc["deliver_executed"],
         "traces_validated_against_impl": len(results),
